@@ -5,12 +5,12 @@ package kit
 
 import (
 	"context"
-	"sync/atomic"
-	"runtime/debug"
 	"fmt"
 	"math"
+	"runtime/debug"
 	"strconv"
 	"strings"
+	"sync/atomic"
 	"time"
 
 	"github.com/go-logr/logr"
@@ -48,7 +48,7 @@ const MarkerLabel = "verif/tpl"
 func Tpl(marker string) corev1.PodTemplateSpec {
 	return corev1.PodTemplateSpec{
 		ObjectMeta: metav1.ObjectMeta{Labels: map[string]string{"app": "agent", MarkerLabel: marker}},
-		Spec: corev1.PodSpec{Containers: []corev1.Container{{Name: "main", Image: "img:" + marker}}},
+		Spec:       corev1.PodSpec{Containers: []corev1.Container{{Name: "main", Image: "img:" + marker}}},
 	}
 }
 
@@ -161,7 +161,7 @@ func NodeOfPod(p *corev1.Pod) string {
 
 type nopRec struct{}
 
-func (nopRec) Event(runtime.Object, string, string, string)                    {}
+func (nopRec) Event(runtime.Object, string, string, string)                  {}
 func (nopRec) Eventf(runtime.Object, string, string, string, ...interface{}) {}
 func (nopRec) AnnotatedEventf(runtime.Object, map[string]string, string, string, string, ...interface{}) {
 }
